@@ -81,7 +81,11 @@ def _gen_obligations(ctx: Ctx):
     from primaite.game.agent.scripted_agents.abstract_tap import KillChainStageProgress
     from primaite.game.agent.scripted_agents.TAP001 import MobileMalwareKillChain
     from primaite.game.agent.scripted_agents.TAP003 import InsiderKillChain
-    text = x_agents.emit()
+    try:
+        text = x_agents.emit()
+    except Exception as e:      # strict extractor: an unrecognised source shape is a broken obligation, not a crash of the check
+        ctx.oblige("gen-crosscheck:extractor", "extractor", False, f"{type(e).__name__}: {e}")
+        return
     for name, enum in (("mobileMalwareKillChain", MobileMalwareKillChain), ("insiderKillChain", InsiderKillChain),
                        ("stageProgress", KillChainStageProgress)):
         want = "[" + ", ".join(f'("{m.name}", {int(m.value)})' for m in enum) + "]"
